@@ -79,11 +79,12 @@ func stepFromMap(o *ordered.MapSA) (Step, error) {
 	var err error
 
 	if hasType {
-		sTypeStr, ok := sType.(string)
-		if !ok {
-			return nil, fmt.Errorf("unmarshaling step: step's `type` key was %T (value %v), want string", sType, sType)
+		if sTypeStr, ok := sType.(string); ok {
+			step, err = stepByType(sTypeStr)
+		} else {
+			// Not a type we know - preserve the step like any other unknown type.
+			err = fmt.Errorf("%w: step's `type` key was %T (value %v), want string", ErrUnknownStepType, sType, sType)
 		}
-		step, err = stepByType(sTypeStr)
 	} else {
 		step, err = stepByKeyInference(o)
 	}
